@@ -524,7 +524,8 @@ impl VerbForm {
             'い' => Some(VerbForm::KamiIchidan("ア".to_string())),
             'き' => Some(VerbForm::KamiIchidan("カ".to_string())),
             'ぎ' => Some(VerbForm::KamiIchidan("ガ".to_string())),
-            'し' => Some(VerbForm::KamiIchidan("サ".to_string())),
+            // 「〜しない」はサ行変格活用（サ行上一段は存在しない）
+            'し' => Some(VerbForm::Hen("サ".to_string())),
             'じ' => Some(VerbForm::KamiIchidan("ザ".to_string())),
             'ち' => Some(VerbForm::KamiIchidan("タ".to_string())),
             'に' => Some(VerbForm::KamiIchidan("ナ".to_string())),
